@@ -1,5 +1,5 @@
 From Coq Require Import QArith Qcanon Qcabs.
-From Raptor Require Import Base.Sums Sparse.Defs Extract.Inst.
+From Raptor Require Import Base.Sums Sparse.Defs Sparse.Block Extract.Inst.
 Require Import ExtrOcamlBasic.
 Extraction Language OCaml.
 Extraction "model_sparse.ml"
@@ -16,4 +16,5 @@ Extraction "model_sparse.ml"
   q_csr_spmv q_csr_spmv_append q_csr_spmv_append_T q_csr_spmv_append_neg q_csr_spmv_append_neg_T
   q_csr_residual q_csr_mult_T
   q_csc_spmv q_csc_spmv_append q_csc_spmv_append_T q_csc_spmv_append_neg q_csc_spmv_append_neg_T
-  q_csc_residual q_csc_mult_T.
+  q_csc_residual q_csc_mult_T
+  q_bcoo_expand q_bsr_to_csr.
